@@ -519,6 +519,51 @@ pub fn run(ctx: &Ctx) -> Report {
         rep.merge(r);
     }
 
+    // ---- well-formed requests of 16 MiB and more, by the length of the trailing fragment and the
+    //      way the transport hands the bytes over (all at once, the tail in small pieces, a read
+    //      that ends just behind the full fragment, ...): any byte sequence includes these
+    if !ctx.miri {
+        let tails: Vec<usize> = if ctx.thorough { vec![0, 1, 10, 1000, 3000, 4091, 4092, 4093, 4096, 5000, 8192, 70_000, MAXP - 1, MAXP + 7] } else { vec![0, 3000, 5000, 4093, 70_000] };
+        let nsched = 5usize;
+        let r = par_cases(ctx, "C20", "multi-packet-chunkings", (tails.len() * nsched) as u64, |rng, i, rep| {
+            let tail = tails[i as usize / nsched];
+            let sk = i as usize % nsched;
+            let plen = MAXP + tail;
+            let mut text = Vec::new();
+            stream_fill(&mut text, ctx.seed, 900 + i, plen - 1, true);
+            let mut case = Case::new(vec![Cmd::query(&text), Cmd::ping(), Cmd::query(b"after")], vec![Script::Q(QProg::completed(1, 1)), Script::Q(QProg::completed(2, 2))]);
+            let (input, ends) = case.input();
+            let start = ends[0].0; // first byte of the big command
+            let frag2 = start + 4 + MAXP;
+            case.sched = match sk {
+                0 => Sched { cuts: vec![], cycle: vec![1 << 26] },
+                // the first fragment in one read, then the tail in pieces of 1000 bytes (at most 20 of them)
+                1 => Sched { cuts: (0..20).map(|k| frag2 + k * 1000).filter(|&c| c < input.len()).collect(), cycle: vec![1 << 26] },
+                2 => Sched { cuts: vec![frag2 + 4 + rng.below(tail.max(1) as u64) as usize], cycle: vec![1 << 26] },
+                3 => Sched { cuts: vec![frag2 - 1, frag2 + 3], cycle: vec![(1 << 20) + 13] },
+                _ => Sched { cuts: vec![start + 3, frag2 + 1 + rng.below(3) as usize], cycle: vec![(1 << 22) + rng.range(1, 5000) as usize, 4096, 100] },
+            };
+            case.log_reads = false;
+            let obs = run_case(&case);
+            rep.evaluations += 1;
+            let what = format!("well-formed multi-packet request, tail {}, read pattern {}", len_class(tail), sk);
+            let d = || J::obj().set("generator", "well-formed request of 2^24-1 + tail payload bytes").set("tail_bytes", tail).set("input_bytes", input.len()).set("sched", case.sched.describe()).set("outcome", obs.outcome.describe());
+            if i == 0 {
+                rep.sample(d());
+            }
+            judge(&obs, &what, rep, &d);
+            if !matches!(obs.outcome, Outcome::Panic { .. }) {
+                let served = obs.log.cbs.iter().filter(|c| matches!(c.kind, CbKind::Query(_))).count();
+                if obs.outcome != Outcome::Ok || served != 2 {
+                    rep.violations.push(viol("C20", "C20 well-formed-multi-packet-request-refused".into(), format!("a well-formed request of {} payload bytes made run_on return {} ({} of 2 queries served)", plen, obs.outcome.describe(), served), d()));
+                } else {
+                    rep.counters.inc("well_formed_multi_packet_requests_served");
+                }
+            }
+        });
+        rep.merge(r);
+    }
+
     // ---- malformed input INSIDE an established TLS session (the second handshake parse of init())
     if let Some(m) = &tlsm {
         let caps = 0x003f_a685 | wire::CLIENT_SSL;
@@ -543,7 +588,7 @@ pub fn run(ctx: &Ctx) -> Report {
         let aref = &apps;
         let r = par_cases(ctx, "C20", "inside-tls", apps.len() as u64, |rng, i, rep| {
             let (what, app) = &aref[i as usize];
-            let c = super::c18::TlsCase { tls13: rng.bool(), with_cert: false, server_mode: 0, user: b"tlsuser".to_vec(), cmds: vec![], scripts: vec![], first_cut: 0, cycle: if rng.bool() { vec![] } else { vec![rng.range(1, 50) as usize] }, write_limit: usize::MAX, close_notify: rng.bool(), app_override: Some(app.clone()), seqs: (1, 2) };
+            let c = super::c18::TlsCase { tls13: rng.bool(), with_cert: false, server_mode: 0, user: b"tlsuser".to_vec(), cmds: vec![], scripts: vec![], first_cut: 0, cycle: if rng.bool() { vec![] } else { vec![rng.range(1, 50) as usize] }, write_limit: usize::MAX, close_notify: rng.bool(), raw_limit: None, hs_variant: 0, app_override: Some(app.clone()), seqs: (1, 2), auth_reject: None, record_per_command: false };
             let o = match super::c18::run_tls(m, &c) {
                 Ok(o) => o,
                 Err(e) => {
